@@ -295,6 +295,9 @@ func buildUpdate(ctx context.Context, st state.CoreState, m model, o op, ver int
 
 func mutate(r *conformance.IntResource, o op, ver int) *conformance.IntResource {
 	r.Metadata().SetVersion(version(ver))
+	// the caller's idea of the creation time is not an input of Update: the stored one is kept, in memory and in
+	// what is handed to the backing store
+	r.Metadata().SetCreated(time.Unix(1, 0))
 	switch o.chg {
 	case "val":
 		r.SetValue(r.Value() + 1)
@@ -403,7 +406,10 @@ func flavours() []flavour {
 		{"filter-allow-all", func() (state.CoreState, func()) {
 			return state.Filter(namespaced.NewState(inmem.Build), func(context.Context, state.Access) error { return nil }), func() {}
 		}, false},
-		{"inmem+recording-store", func() (state.CoreState, func()) { return hx.NewInmem(&hx.Log{}), func() {} }, false},
+		{"inmem+recording-store", func() (state.CoreState, func()) {
+			log := &hx.Log{}
+			return &recState{CoreState: hx.NewInmem(log), log: log}, func() {}
+		}, false},
 		{"inmem+failing-store", func() (state.CoreState, func()) { st, _ := newFaulty(); return st, func() {} }, true},
 		{"inmem+bbolt", func() (state.CoreState, func()) {
 			dir := filepath.Join(explore.Root(), ".build", "tmp")
@@ -425,6 +431,38 @@ func flavours() []flavour {
 			return st, func() { bs.Close(); os.Remove(path) }
 		}, false},
 	}
+}
+
+// recState is the recording-store flavour: the state together with the log of what its backing store was told.
+type recState struct {
+	state.CoreState
+	log *hx.Log
+}
+
+// storeAgrees: what the backing store was told, folded, is what the state returns - every field, creation and update
+// times included.
+func (r *recState) storeAgrees(ctx context.Context) string {
+	told := r.log.StateAt(r.log.Len())
+	mem := snapshot(ctx, r.CoreState)
+	n := 0
+	for _, res := range told {
+		if res.Metadata().Type() != conformance.IntResourceType {
+			continue
+		}
+		n++
+		id := string(res.Metadata().ID())
+		m, ok := mem[id]
+		if !ok {
+			return fmt.Sprintf("the backing store holds %s, the state does not", hx.Snap(res))
+		}
+		if m.snap != hx.Snap(res) || !m.created.Equal(res.Metadata().Created()) || !m.updated.Equal(res.Metadata().Updated()) {
+			return fmt.Sprintf("the backing store was told %s created=%v updated=%v, the state returns %s created=%v updated=%v", hx.Snap(res), res.Metadata().Created().UnixNano(), res.Metadata().Updated().UnixNano(), m.snap, m.created.UnixNano(), m.updated.UnixNano())
+		}
+	}
+	if n != len(mem) {
+		return fmt.Sprintf("the state returns %d resources, the backing store holds %d", len(mem), n)
+	}
+	return ""
 }
 
 type inst struct {
@@ -530,6 +568,11 @@ func (in *inst) Apply(s string) string {
 		}
 	}
 	after := snapshot(in.ctx, in.st)
+	if rs, ok := in.st.(*recState); ok {
+		if msg := rs.storeAgrees(in.ctx); msg != "" {
+			return "after " + s + ": " + msg
+		}
+	}
 	// implementation state == model state
 	for id, mr := range in.m {
 		if after[id].snap != mr.snap(id) {
